@@ -883,10 +883,21 @@ def run(case):
         for r in readers:
             check_reader(r, where)
 
-    def do_write(ops, commit, where):
-        """-> (changed, model txn)"""
-        txn = zone.writer()
-        mt = model.begin()
+    def do_write(ops, commit, where, replacement=None):
+        """-> (changed, model txn); replacement=<serial>: a writer(replacement=True) that starts
+        from nothing (what a reload or an AXFR does) and first stores an SOA with that serial"""
+        if replacement is None:
+            txn = zone.writer()
+            mt = model.begin()
+        else:
+            import dns.rdata
+
+            txn = zone.writer(replacement=True)
+            mt = model.begin(replacement=True)
+            soa = dns.rdata.from_text("IN", "SOA", f"ns1 hostmaster {replacement} 7200 3600 1209600 300", origin=origin, relativize=w.rel)
+            txn.add(w.name(()), 3600, soa)
+            mt.add(ORIGIN_KEY, 6, 0, 3600, [ZU.rdata_key(soa, origin)], rdclass=1, ttl_form=True)
+            classes.add("replacement-writer")
         held = []
         for op in ops:
             kind = op[0]
@@ -1050,8 +1061,16 @@ def run(case):
                 classes.add("close")
             else:
                 invariants(where, before, False, nlog=nlog)
-        elif kind in ("commit", "rollback"):
-            changed, mt = do_write(rule[1], kind == "commit", where)
+        elif kind in ("commit", "rollback", "commit_repl"):
+            if kind == "commit_repl":
+                changed, mt = do_write(rule[1], True, where, replacement=rule[2])
+                kind = "commit"
+                if readers:
+                    classes.add("replacement-commit-with-reader-open")
+                if len(before) > 1:
+                    classes.add("replacement-commit-with->=2-retained")
+            else:
+                changed, mt = do_write(rule[1], kind == "commit", where)
             now = w.ids()
             if kind == "commit" and changed:
                 new = now[-1]
@@ -1192,6 +1211,7 @@ def _rule():
         st.tuples(st.just("commit"), serial_bump),
         st.tuples(st.just("commit"), st.just([])),
         st.tuples(st.just("rollback"), ops),
+        st.tuples(st.just("commit_repl"), ops, st.integers(1, 9)),
         st.tuples(st.just("max_versions"), st.sampled_from([None, 1, 2, 3, 0])),
         st.tuples(st.just("policy"), policy),
         st.tuples(st.just("policy"), policy),
@@ -1229,6 +1249,8 @@ def _require():
         "attack-pairs>=20": 50,
         "excluded:btree-setattr": 10,
         "caller-held-rdataset-mutated-after-commit": 100,
+        "replacement-commit-with-reader-open": 100,
+        "replacement-commit-with->=2-retained": 100,
         "__nontrivial__": 100,
     }
     seen = set()
